@@ -581,3 +581,260 @@ def enum_set(tier, seed):
         return [], {}, err
     lines, skipped = enum_lines(defs, v, f)
     return lines, {"definitions": len(defs), "modules": len(mods), "invalid_definitions_skipped": skipped}, None
+
+
+# ----------------------------------------------------------------------------- CheckedBitPattern family (C08)
+CK_LEAVES = [  # (rust, size, align, kind, valid byte images, invalid byte images)
+    ("u8", 1, 1, 0, [[0], [255], [7]], []), ("u16", 2, 2, 0, [[1, 2], [255, 255]], []), ("u32", 4, 4, 0, [[1, 2, 3, 4]], []),
+    ("bool", 1, 1, 1, [[0], [1]], [[2], [255], [128]]), ("char", 4, 4, 2, [[65, 0, 0, 0], [255, 215, 0, 0], [0, 224, 0, 0], [255, 255, 16, 0]],
+                                                         [[0, 216, 0, 0], [255, 223, 0, 0], [0, 0, 17, 0], [65, 0, 0, 1]]),
+    ("core::num::NonZeroU8", 1, 1, 3, [[1], [255]], [[0]]), ("core::num::NonZeroU32", 4, 4, 3, [[0, 0, 0, 1], [1, 0, 0, 0]], [[0, 0, 0, 0]]),
+    ("[u8; 3]", 3, 1, 0, [[1, 2, 3]], []), ("u64", 8, 8, 0, [[1, 2, 3, 4, 5, 6, 7, 8]], []),
+]
+
+
+def ck_round_up(n, a):
+    return n if a == 0 else (n + a - 1) // a * a
+
+
+def ck_layout_c(packed, align, flds):
+    off = 0
+    offs = []
+    al = 1
+    for (s, a) in flds:
+        c = a if packed == 0 else min(a, packed)
+        o = ck_round_up(off, c)
+        offs.append(o)
+        off = o + s
+        al = max(al, c)
+    al = max(al, align if align else 1)
+    return ck_round_up(off, al), al, offs
+
+
+def ck_lay(t):
+    if t[0] == "leaf":
+        return t[2], t[3]
+    if t[0] == "struct":
+        s, a, _ = ck_layout_c(t[1], t[2], [ck_lay(f) for f in t[3]])
+        return s, a
+    rk, tagty, vs = t[1], t[2], t[3]
+    ts = INT_TYPES[tagty][0] // 8
+    if rk == 2:
+        ls = [ck_layout_c(0, 0, [(ts, ts)] + [ck_lay(f) for f in v[1]]) for v in vs]
+        a = max([ts] + [l[1] for l in ls])
+        return ck_round_up(max([ts] + [l[0] for l in ls]), a), a
+    ls = [ck_layout_c(0, 0, [ck_lay(f) for f in v[1]]) for v in vs]
+    ua = max([1] + [l[1] for l in ls])
+    us = ck_round_up(max([0] + [l[0] for l in ls]), ua)
+    s, a, _ = ck_layout_c(0, 0, [(ts, ts), (us, ua)])
+    return s, a
+
+
+def ck_encode(t):
+    if t[0] == "leaf":
+        return [0, t[2], t[3], t[4]]
+    if t[0] == "struct":
+        out = [1, t[1], t[2], len(t[3])]
+        for f in t[3]:
+            out += ck_encode(f)
+        return out
+    rk, tagty, vs = t[1], t[2], t[3]
+    bits, signed = INT_TYPES[tagty]
+    out = [2, rk, bits // 8, signed, len(vs)]
+    for (disc, fs) in vs:
+        out += [disc, len(fs)]
+        for f in fs:
+            out += ck_encode(f)
+    return out
+
+
+def ck_images(t, rnd, want_valid=True):
+    """A few byte images of t: (bytes, is_valid).  Padding bytes are filled with 0xEE."""
+    size, _ = ck_lay(t)
+    if t[0] == "leaf":
+        out = [(list(b), True) for b in t[5]] + [(list(b), False) for b in t[6]]
+        return out
+    if t[0] == "struct":
+        flds = [ck_lay(f) for f in t[3]]
+        _, _, offs = ck_layout_c(t[1], t[2], flds)
+        subs = [ck_images(f, rnd) for f in t[3]]
+        base = [0xEE] * size
+        for f, o, sub in zip(t[3], offs, subs):
+            b = [x for x in sub if x[1]][0][0]
+            base[o:o + len(b)] = b
+        out = [(list(base), True)]
+        for f, o, sub in zip(t[3], offs, subs):
+            for (b, ok) in sub[:6]:
+                im = list(base)
+                im[o:o + len(b)] = b
+                out.append((im, ok))
+        return out
+    rk, tagty, vs = t[1], t[2], t[3]
+    bits, signed = INT_TYPES[tagty]
+    ts = bits // 8
+    out = []
+    lo, hi = int_bounds(tagty)
+    declared = {d for d, _ in vs}
+    tags = set(declared) | {d + 1 for d in declared} | {d - 1 for d in declared} | {lo, hi, 0}
+    if bits == 8:
+        tags |= set(range(lo, hi + 1))
+    tags = sorted(x for x in tags if lo <= x <= hi)
+
+    def tag_bytes(v):
+        return list((v & ((1 << bits) - 1)).to_bytes(ts, "little"))
+    if rk == 2:
+        for (disc, fs) in vs:
+            flds = [(ts, ts)] + [ck_lay(f) for f in fs]
+            _, _, offs = ck_layout_c(0, 0, flds)
+            subs = [ck_images(f, rnd) for f in fs]
+            base = [0xEE] * size
+            base[0:ts] = tag_bytes(disc)
+            for f, o, sub in zip(fs, offs[1:], subs):
+                b = [x for x in sub if x[1]][0][0]
+                base[o:o + len(b)] = b
+            out.append((list(base), True))
+            for f, o, sub in zip(fs, offs[1:], subs):
+                for (b, ok) in sub[:5]:
+                    im = list(base)
+                    im[o:o + len(b)] = b
+                    out.append((im, ok))
+    else:
+        ls = [ck_layout_c(0, 0, [ck_lay(f) for f in v[1]]) for v in vs]
+        ua = max([1] + [l[1] for l in ls])
+        pay = ck_round_up(ts, ua)
+        for (disc, fs), l in zip(vs, ls):
+            subs = [ck_images(f, rnd) for f in fs]
+            base = [0xEE] * size
+            base[0:ts] = tag_bytes(disc)
+            for f, o, sub in zip(fs, l[2], subs):
+                b = [x for x in sub if x[1]][0][0]
+                base[pay + o:pay + o + len(b)] = b
+            out.append((list(base), True))
+            for f, o, sub in zip(fs, l[2], subs):
+                for (b, ok) in sub[:5]:
+                    im = list(base)
+                    im[pay + o:pay + o + len(b)] = b
+                    out.append((im, ok))
+    # tag sweep over the first variant's valid image: valid iff the tag is declared AND that variant's payload is valid
+    first = out[0][0]
+    for tg in tags:
+        im = list(first)
+        im[0:ts] = tag_bytes(tg)
+        out.append((im, None))     # expected validity decided by the model (depends on which variant the tag selects)
+    return out
+
+
+def ck_render(t, name, out_defs):
+    """Rust type expression for t; struct/enum definitions appended to out_defs (inner first)."""
+    if t[0] == "leaf":
+        return t[1]
+    if t[0] == "struct":
+        ftys = [ck_render(f, "%s_f%d" % (name, k), out_defs) for k, f in enumerate(t[3])]
+        rep = ["C"] + (["packed(%d)" % t[1]] if t[1] else []) + (["align(%d)" % t[2]] if t[2] else [])
+        out_defs.append("#[derive(Clone, Copy, bytemuck::CheckedBitPattern)] #[repr(%s)] pub struct %s { %s }" % (
+            ", ".join(rep), name, ", ".join("pub g%d: %s" % (k, ty) for k, ty in enumerate(ftys))))
+        return name
+    rk, tagty, vs = t[1], t[2], t[3]
+    rep = {1: "C", 2: tagty, 3: "C, " + tagty}[rk]
+    vtxt = []
+    for k, (disc, fs) in enumerate(vs):
+        ftys = [ck_render(f, "%s_v%d_%d" % (name, k, j), out_defs) for j, f in enumerate(fs)]
+        body = "(%s)" % ", ".join(ftys) if ftys else ""
+        # implicit whenever the compiler's rule gives the intended value (first = 0, else previous + 1)
+        implicit = (k == 0 and disc == 0) or (k > 0 and disc == vs[k - 1][0] + 1)
+        vtxt.append("W%d%s%s" % (k, body, "" if (rk == 1 or implicit) else " = %d" % disc))
+    out_defs.append("#[derive(Clone, Copy, bytemuck::CheckedBitPattern)] #[repr(%s)] pub enum %s { %s }" % (rep, name, ", ".join(vtxt)))
+    return name
+
+
+def checked_family(tier, seed):
+    rnd = random.Random(seed * 2654435761 % (1 << 31) + 3)
+    n = 70 if tier == "quick" else 600
+    L = [("leaf",) + x for x in CK_LEAVES]
+
+    def rand_struct(depth):
+        nf = rnd.randint(0, 4)
+        fs = [rand_ty(depth + 1) for _ in range(nf)]
+        mod = rnd.choice([(0, 0), (0, 0), (0, 0), (1, 0), (2, 0), (0, 8), (0, 16)])
+        return ("struct", mod[0], mod[1], fs)
+
+    def rand_enum(depth):
+        rk = rnd.choice([1, 2, 2, 3])
+        tagty = "i32" if rk == 1 else rnd.choice(["u8", "u8", "i8", "u16", "u32", "i16"])
+        nv = rnd.randint(1, 4)
+        lo, hi = int_bounds(tagty)
+        discs = list(range(nv)) if rk == 1 else sorted(rnd.sample(range(max(lo, -6), min(hi, 12)), nv))
+        if rk != 1 and rnd.random() < 0.5:
+            rnd.shuffle(discs)
+        vs = [(d, [rand_ty(depth + 1) for _ in range(rnd.randint(0, 3))]) for d in discs]
+        if all(len(v[1]) == 0 for v in vs):
+            vs[0] = (vs[0][0], [L[3]])
+        return ("enum", rk, tagty, vs)
+
+    def rand_ty(depth):
+        r = rnd.random()
+        if depth >= 2 or r < 0.7:
+            return rnd.choice(L)
+        return rand_struct(depth) if r < 0.87 else rand_enum(depth)
+    corpus = [
+        ("enum", 2, "u8", [(0, [L[3]]), (1, [L[2]])]),                      # repr(u8) { A(bool), B(u32) }: mixed payload alignment
+        ("enum", 2, "u8", [(0, [L[0], L[0], L[0]]), (1, [L[1]])]),          # { A(u8,u8,u8), B(u16) }
+        ("enum", 2, "u8", [(5, [L[0]]), (6, [L[3]]), (7, [])]),             # explicit then following
+        ("enum", 3, "u8", [(10, [L[3]]), (11, [L[5]])]), ("enum", 1, "i32", [(0, [L[3]]), (1, [L[4], L[0]])]),
+        ("struct", 0, 0, [L[0], L[2], L[3]]), ("struct", 1, 0, [L[0], L[2], L[3]]), ("struct", 0, 16, [L[3], L[4]]),
+        ("struct", 0, 0, [("struct", 0, 0, [L[3], L[1]]), L[5]]), ("enum", 3, "u16", [(1, [("struct", 0, 0, [L[3], L[2]])]), (3, [L[4]])]),
+        ("enum", 2, "i8", [(-1, [L[3]]), (0, [L[6]]), (1, [])]), ("struct", 2, 0, [L[0], L[2], L[1]]),
+    ]
+    defs = list(corpus)
+    while len(defs) < n:
+        defs.append(rand_struct(0) if rnd.random() < 0.5 else rand_enum(0))
+    return defs
+
+
+def checked_set(tier, seed):
+    defs = checked_family(tier, seed)
+    rnd = random.Random(seed)
+    mods = []
+    images = {}
+    for i, t in enumerate(defs):
+        out_defs = []
+        top = ck_render(t, "K", out_defs)
+        ims = ck_images(t, rnd)[: (160 if tier == "quick" else 400)]
+        images[i] = ims
+        size, _ = ck_lay(t)
+        arr = ", ".join("[%s]" % ", ".join(str(b) for b in im) for im, _ in ims)
+        facts = ("pub fn facts() -> String {\n  use bytemuck::checked::CheckedBitPattern;\n"
+                 "  type B = <%s as CheckedBitPattern>::Bits;\n"
+                 "  let imgs: Vec<[u8; %d]> = vec![%s];\n"
+                 "  let mut s = String::new();\n"
+                 "  if core::mem::size_of::<B>() == %d { for im in &imgs {\n"
+                 "    let bits: B = bytemuck::pod_read_unaligned(&im[..]);\n"
+                 "    let v = <%s as CheckedBitPattern>::is_valid_bit_pattern(&bits);\n"
+                 "    let c = bytemuck::checked::try_pod_read_unaligned::<%s>(&im[..]);\n"
+                 "    let agree = match c { Ok(_) => v, Err(bytemuck::checked::CheckedCastError::InvalidBitPattern) => !v, Err(_) => false };\n"
+                 "    s.push(if !agree { '2' } else if v { '1' } else { '0' });\n"
+                 "  } }\n"
+                 "  format!(\"{} {} {} {} {}\", core::mem::size_of::<%s>(), core::mem::align_of::<%s>(), core::mem::size_of::<B>(), core::mem::align_of::<B>(), if s.is_empty() { \"-\".to_string() } else { s }) }"
+                 % (top, size, arr, size, top, top, top, top))
+        mods.append(("k%d" % i, "\n".join(out_defs) + "\n" + facts))
+    v, f, err = compile_verdicts("checked-" + tier, PRELUDE, mods)
+    if err:
+        return [], {}, err
+    lines = []
+    rejected = 0
+    for i, t in enumerate(defs):
+        m = "k%d" % i
+        if v.get(m, "x") is not None or m not in f:
+            rejected += 1
+            lines.append("512 0 0 0 0 0 0 0 %d - ; V 0 0 0 0 0 -1 %d %s 0 ; %s ; 3" % (i, len(ck_encode(t)), " ".join(str(x) for x in ck_encode(t)), m))
+            continue
+        w = f[m].split()
+        st, at, sb, ab, flags = int(w[0]), int(w[1]), int(w[2]), int(w[3]), w[4]
+        enc = ck_encode(t)
+        if flags == "-":
+            lines.append("512 0 0 0 0 0 0 0 %d - ; V 1 %d %d %d %d -1 %d %s 0 ; %s ; 3" % (i, st, at, sb, ab, len(enc), " ".join(str(x) for x in enc), m))
+            continue
+        for (im, _), fl in zip(images[i], flags):
+            lines.append("512 0 0 0 0 0 0 0 %d - ; V 1 %d %d %d %d %s %d %s %d %s ; %s ; 3" % (
+                i, st, at, sb, ab, fl, len(enc), " ".join(str(x) for x in enc), len(im), " ".join(str(b) for b in im), m))
+    return lines, {"definitions": len(defs), "modules": len(mods), "rejected_definitions": rejected}, None
